@@ -52,11 +52,20 @@ def _solve_z3(args):
     text, timeout_ms, want_model = args
     t0 = time.time()
     try:
-        ctx = z3.Context()
-        s = z3.Solver(ctx=ctx)
-        s.set("timeout", timeout_ms)
-        s.from_string(text)
-        r = s.check()
+        # a quantified query that is valid usually closes in well under a second; when the first attempt
+        # wanders off (unknown), other instantiation strategies / seeds are tried before giving up
+        attempts = [({}, timeout_ms), ({"smt.mbqi": False}, timeout_ms // 2), ({"smt.random_seed": 7, "smt.qi.eager_threshold": 50}, timeout_ms // 2)]
+        r, s = z3.unknown, None
+        for cfg, tmo in attempts:
+            ctx = z3.Context()
+            s = z3.Solver(ctx=ctx)
+            s.set("timeout", max(1000, tmo))
+            for kk, vv in cfg.items():
+                s.set(kk, vv)
+            s.from_string(text)
+            r = s.check()
+            if r != z3.unknown:
+                break
         res = str(r)
         model = None
         if r == z3.sat and want_model:
